@@ -38,11 +38,13 @@ func sameBytes(id string, a, b []byte) {
 type verifPConn struct {
 	in     [][]byte
 	pos    int
-	sent   [][]byte
-	closed bool
+	sent    [][]byte
+	closed  bool
+	offered int // size of the buffer the last ReadFrom call offered
 }
 
 func (p *verifPConn) ReadFrom(b []byte) (int, net.Addr, error) {
+	p.offered = len(b)
 	if p.pos >= len(p.in) {
 		return 0, verifAddr{}, verifTimeout{}
 	}
